@@ -42,6 +42,7 @@ static struct rsz_ghost {
 	unsigned int nmark[BM_NR];		/* mark events that hit b */
 	unsigned long long loc[2][T_NR];	/* table locations of group g: [0] new_fs, [1] old_fs */
 	unsigned int t_zero[T_NR];		/* clock when new_fs's location of group g was set to 0 */
+	unsigned int lq_grp[2][T_NR]; unsigned long long lq_val[2][T_NR]; unsigned char lq_ok[2][T_NR];	/* last answer about another group (repeated queries agree) */
 	unsigned int t_agt_first, t_agt_last;	/* first / last ext2fs_allocate_group_table call (any group) */
 	unsigned int t_agt_g;			/* last call for the ghost group */
 	unsigned int n_agt, n_agt_rsv, n_agt_map;	/* calls; with an explicit bitmap; with bmap == 0 (fs->block_map) */
@@ -88,7 +89,7 @@ static void rsz_ghost_init(void)
 	int i;
 	G.clock = 1; G.nch = 0; G.n_events = 0;
 	for (i = 0; i < BM_NR; i++) { G.t_mark[i] = 0; G.t_unmark[i] = 0; G.nmark[i] = 0; }
-	for (i = 0; i < T_NR; i++) G.t_zero[i] = 0;
+	for (i = 0; i < T_NR; i++) { G.t_zero[i] = 0; G.lq_ok[0][i] = G.lq_ok[1][i] = 0; }
 	G.agt_took_b_rsv = G.t_agt_map_last = G.t_agt_rsv_first = G.agt_rsv_early = G.agt_map_late = G.mfm_hit_b = 0;
 	G.t_agt_first = G.t_agt_last = G.t_agt_g = G.n_agt = G.n_agt_rsv = G.n_agt_map = G.agt_took_b = G.t_agt_took_b = G.agt_bad_bmap = 0;
 	G.n_loc2 = G.loc2_bad = G.n_stats = G.t_stats = 0; G.stats_delta = 0;
@@ -130,10 +131,6 @@ int ext2fs_unmark_generic_bmap(ext2fs_generic_bitmap bitmap, __u64 arg)
 void ext2fs_mark_block_bitmap_range2(ext2fs_block_bitmap bitmap, blk64_t block, unsigned int num)
 {
 	int i = BMIDX(bitmap);
-#ifdef RSZ_DBG
-	REACH("dbg_range2");
-	if (G.n_mfm) REACH("dbg_range2_mfm");
-#endif
 	unsigned int t = rsz_tick();
 	if (GI.b >= block && GI.b - block < num) {
 		G.bit[i] = 1;
@@ -157,20 +154,30 @@ void ext2fs_unmark_block_bitmap_range2(ext2fs_block_bitmap bitmap, blk64_t block
 static ext2_filsys rsz_new_fs, rsz_old_fs;
 static unsigned long long rsz_get_loc(ext2_filsys fs, dgrp_t group, int kind)
 {
-#ifdef RSZ_DBG
-	if (G.n_rsv_ss2 == 1 && kind == T_BB) REACH("dbg_get_loc_bb");
-	if (G.n_rsv_ss2 == 1 && kind == T_IT) REACH("dbg_get_loc_it");
-#endif
+	int f = (fs == rsz_old_fs);
 	if (group == GI.g && (fs == rsz_new_fs || fs == rsz_old_fs))
-		return G.loc[fs == rsz_old_fs][kind];
-	return rsz_chv();
+		return G.loc[f][kind];
+	/* another group: arbitrary, but the same answer as long as the same descriptor is asked about again */
+	if (G.lq_ok[f][kind] == 1 && G.lq_grp[f][kind] == group)
+		return G.lq_val[f][kind];
+	{
+		unsigned long long v = rsz_chv();
+#ifdef RSZ_OTHER_LOC_OK
+		ASSUME(RSZ_OTHER_LOC_OK(v, kind));	/* the unit's assumption about the tables of groups other than the ghost group */
+#endif
+		G.lq_ok[f][kind] = 1; G.lq_grp[f][kind] = group; G.lq_val[f][kind] = v;
+		return v;
+	}
 }
 static void rsz_set_loc(ext2_filsys fs, dgrp_t group, int kind, blk64_t blk)
 {
 	unsigned int t = rsz_tick();
+	int f = (fs == rsz_old_fs);
 	if (group == GI.g && (fs == rsz_new_fs || fs == rsz_old_fs)) {
-		G.loc[fs == rsz_old_fs][kind] = blk;
+		G.loc[f][kind] = blk;
 		if (fs == rsz_new_fs && blk == 0 && !G.t_zero[kind]) G.t_zero[kind] = t;
+	} else {
+		G.lq_ok[f][kind] = 1; G.lq_grp[f][kind] = group; G.lq_val[f][kind] = blk;
 	}
 }
 blk64_t ext2fs_block_bitmap_loc(ext2_filsys fs, dgrp_t group) { return rsz_get_loc(fs, group, T_BB); }
@@ -221,6 +228,7 @@ errcode_t ext2fs_allocate_group_table(ext2_filsys fs, dgrp_t group, ext2fs_block
 	else { G.n_agt_rsv++; i = BM_RESERVE; if (bmap != BMH(BM_RESERVE)) G.agt_bad_bmap++; if (!G.t_agt_rsv_first) G.t_agt_rsv_first = t; }
 	if (rsz_ch() & 1)
 		return EXT2_ET_BLOCK_ALLOC_FAIL;
+	if (!gg) G.lq_ok[0][T_BB] = G.lq_ok[0][T_IB] = G.lq_ok[0][T_IT] = 0;	/* descriptors of another group change */
 	/* a table of the ghost group is (re)placed iff its location is 0; for other groups: arbitrarily */
 	if (gg ? G.loc[0][T_BB] == 0 : (rsz_ch() & 1))
 		rsz_agt_pick(i, T_BB, t, 1, gg);
@@ -241,6 +249,7 @@ void ext2fs_block_alloc_stats2(ext2_filsys fs, blk64_t blk, int inuse)
 	unsigned int t = rsz_tick();
 	if (blk == GI.b) {
 		G.n_stats++;
+		ASSUME(G.stats_delta > -0x40000000 && G.stats_delta < 0x40000000 && inuse >= -1 && inuse <= 1);	/* ghost counter does not wrap; callers pass +1 / -1 */
 		G.stats_delta += inuse;
 		if (!G.t_stats) G.t_stats = t;
 		if (fs == rsz_new_fs) G.bit[BM_NEW] = inuse > 0;	/* alloc_stats marks / unmarks fs->block_map */
